@@ -9,22 +9,21 @@ CFG = dict(
                    "C02_injective / C02_distinct: with injective block and table hashes equal identifiers force equal columns, "
                    "key and rows, so inputs differing in a cell, a column name, the column order or the key get different "
                    "identifiers; C02_no_change: commitIfBranchFileHasChanged creates no commit iff the head's table id equals "
-                   "the new one. Model tied to ingest / wrgl commit by comparing table sums for equality and inequality only.",
+                   "the new one; C02_cache_fresh / C02_branch_commit_sound / C02_stale_only_if_old: the cache of branch-file mode (ensureTempCommit) reuses the cached ingestion iff the file's mtime is not after the cached commit's time, a newer file is decided by the id of the table it really holds, and a wrong 'no change' needs mtime <= cached commit time. Model tied to ingest / wrgl commit by comparing table sums for equality and inequality only.",
         level_note="Theorems are about coq/model/{Sorter,Ingest}.v; the identifier is abstract (hash of columns, pk, row count, "
                    "block ids, index ids under explicit injectivity premises); byte encodings are C06's; the delimiter acts "
                    "before the model's input (CSV parsing), the harness varies it for real.",
         rule="per case one logical table with unique keys ingested 6 ways (rows permuted x run sizes huge/1/64/4096/random/1 x "
              "workers 1/3/4/8/16 x delimiters , ; tab | x CSV text styles (heavy quoting / hand-formatted raw / CRLF / no final newline) x producer IngestTable or Sorter.AddRow+IngestTableFromSorter x separate "
              "stores, the first two into one store) => one table sum, no new object on the second ingest; mutants (one cell, one "
-             "column name, two columns swapped, key reversed or extended) => another sum; some cases also through wrgl commit "
+             "column name, two columns swapped, key reversed or extended) => another sum; some cases also through wrgl commit (--no-cache) and, every other one, through branch-file mode WITH the cache: after the commit that creates the cached <branch>-tmp commit, 5..8 steps each writing the table / the permuted table / the one-cell mutant, setting the file's mtime with os.Chtimes to cached commit time + {0.2 s, 0.9 s, 0.999 s, 1 ms, 1 s, 2 s} (judged) or + {0, -5 s} (observed only) and running wrgl commit BRANCH MSG or commit --all; also through wrgl commit "
              "from a branch file (unchanged / rewritten permuted / changed). Tables as in C01 (0..600 rows, 1..6 columns). "
              "two variants of every table of 3+ blocks under a forced worker schedule (gated store); "
              "distinct = distinct case text; non-trivial = at least two rows",
         trusted=["table sums are compared for equality / inequality only; the model compares tables structurally "
                  "(columns, key, row count, blocks)", "the mock object store is wrapped in a mutex"],
         assumptions=["MeowHash / the object encodings are injective on the objects compared (premises Hb, Ht of C02_injective)",
-                     "sort.Slice returns a sorted permutation", "wrgl commit is run with --no-cache: the temp-branch cache of ensureTempCommit "
-                     "(reuse of <branch>-tmp when its message is the file name, its time is not before the file's mtime and the "
-                     "key is equal) is consulted before the table-id comparison and is NOT modelled; with it a file whose content "
-                     "changed while its mtime did not advance is reported unchanged (observation recorded, out of scope)"],
+                     "sort.Slice returns a sorted permutation", "the cache of branch-file mode is modelled on its time logic only (file name and key constant); a file whose content changed while "
+                     "its mtime is not after the cached commit's time is reported unchanged by design of the cache (recorded observation): such "
+                     "steps are compared with the model but not judged by the oracle"],
 )
